@@ -95,6 +95,18 @@ func bigBatchHistory(n, stride int) *eng.CrashHistory {
 		Ops:  []m.Op{ins("a", manyDocs(n)...), {K: "delete", Q: qOn("a", m.Leaf("gte", "x", int64(3)))}}}
 }
 
+// oversizeHistory: one Insert larger than badger's per-transaction limit (refused there, accepted by bbolt), then a
+// small one. A refused operation must leave nothing behind even if the process dies while it is attempted.
+func oversizeHistory() *eng.CrashHistory {
+	docs := manyDocs(2600)
+	for _, d := range docs {
+		d["pad"] = strings.Repeat("p", 700)
+	}
+	return &eng.CrashHistory{Name: "oversize-batch", Stride: 307, MayFail: true,
+		Prep: []m.Op{{K: "createColl", Coll: "a"}, {K: "createIndex", Coll: "a", Field: "x"}, ins("a", doc(u1, "x", int64(1)))},
+		Ops:  []m.Op{ins("a", docs...), ins("a", doc(u2, "x", int64(2)))}}
+}
+
 // bigValueHistory: documents whose values exceed a storage page and badger's value threshold (value log).
 func bigValueHistory() *eng.CrashHistory {
 	long := strings.Repeat("v", 6000)
@@ -132,7 +144,7 @@ func init() {
 		}
 		run.Set("histories_with_real_kills", len(kills))
 		eng.CrashKills(run, exe, drv.BBolt, kills, tags)
-		eng.CrashKills(run, exe, drv.BadgerDisk, kills, tags)
+		eng.CrashKills(run, exe, drv.BadgerDisk, append(kills, oversizeHistory()), tags)
 		// clean close/reopen in every reachable state of a write alphabet
 		n, cp := run.Get("evaluations"), run.DistinctCount("crash_points")
 		runSS(run, tier, []string{"consistency"}, []string{drv.BBolt}, "", own("reopen"), func(c *eng.SSConfig) { c.Reopen = true; c.MaxDepth = map[string]int{"quick": 4, "thorough": 0}[tier] })
